@@ -563,9 +563,10 @@ def judge_swim(chk, traces, meta, verdicts, dev):
                 chk.note_drift(f"trace {tid} ({meta[tid].get('origin')}): {dr} at step {dpos}")
             continue
         key = CLAUSE_KEY.get(v, v)
-        if v == "PROP:completeness_never_heard" and REAL_DEV in dev and (not dr or dpos > pos):
-            # exactly what the as-code model predicts: conforming up to the failing step, the peer that still
-            # reports ALIVE never received a heartbeat from the stopped member
+        if v == "PROP:completeness_never_heard" and (REAL_DEV not in dev or not dr or dpos > pos):
+            # the peer that still reports ALIVE never received a heartbeat from the stopped member.  While the
+            # deviation is listed as open this is the known finding only if the as-code model explains the
+            # execution up to the failing step; once it is no longer open the same key is a VIOLATION
             key = KNOWN_KEY
         elif dr and dpos <= pos:
             n_drift += 1
